@@ -142,6 +142,13 @@ def rule_weight(ctx, repo):
             m_ = re.match(r'^len\(self\.(vin|vout)\)', t_)
             if m_:
                 v_ = _eqw(t_, 'len(self.%s) > 0' % m_.group(1), domain={'len(self.%s)' % m_.group(1): (0, None)})
+                if v_ is not True:
+                    try:
+                        code_ = compile(ast.parse(t_.replace('len(self.%s)' % m_.group(1), 'N_'), mode='eval'), '<assert>', 'eval')
+                        if all(bool(eval(code_, {'__builtins__': {}}, {'N_': k_})) for k_ in (1, 2, 3, 10, 1000, 10 ** 6)):
+                            v_ = True  # weaker than the confirmed precondition: nothing with at least one element is refused
+                    except Exception:
+                        pass
                 if v_ is True:
                     r.ok('calc_weight:precondition:%s' % m_.group(1), common.site_of(fi, n), 'at least one')
                 elif v_ is False:
